@@ -89,3 +89,61 @@ def _b_type(ex, st, args, kw, node):
 
 
 _lib.BUILTINS['type'] = _b_type
+
+
+# ---- flow-sensitive class of an untyped operand ------------------------------------------------------------------
+# ENGINE  `if isinstance(v, str): v = Variable(v)` / `if not isinstance(v, Variable): raise ...` leave the local `v` with the
+#         static type `any` (the core does not refine types along a path), and `v - t` on an untyped operand is an
+#         uninterpreted op_sub.  Here, for C17, the operand of an arithmetic operator whose static type is `any` is re-typed
+#         as a reference of class K when the PATH CONDITION ENTAILS (solver check, unsat of the negation) that it is a
+#         reference to an object whose class is K or a subclass (K tried: Variable, Beta, Expression); the operator is then
+#         dispatched to K's overload (contract of Expression.__sub__ & co.).  Nothing is assumed: a failed check leaves
+#         the core behaviour.
+from pyvc import symexec as _symexec             # noqa: E402
+from pyvc.vals import TRef as _TRef              # noqa: E402
+
+_REFINE_TO = ('Variable', 'Beta', 'Expression')
+
+
+def _refined(ex, st, v):
+    if v.kind != 'any' or v.t is None or st.spec:
+        return v
+    from pyvc.verify import heap_closure
+    t = v.t
+    cache = st.ghost.setdefault('c17d-refine', {})
+    key = (t.get_id(), len(st.pc))
+    if key in cache:
+        return cache[key]
+    out = v
+    base = list(st.pc) + heap_closure(st) + _VV.ATOMS.axioms()
+    for cname in _REFINE_TO:
+        ci = ex.repo.find_class(cname)
+        if ci is None:
+            continue
+        ids = [ex.class_id(c.name) for c in ex.repo.subclasses(ci.name)]
+        want = _z3.And(_Val.is_ref(t), _z3.Or(*[ex.cls_of(_Val.rv(t)) == i for i in ids]))
+        s = _z3.Solver()
+        s.set('timeout', 1500)
+        s.add(*base)
+        s.add(_z3.Not(want))
+        if str(s.check()) == 'unsat':
+            out = _V(t, _TRef(ex.repo.class_key(ci)))
+            ex.ctx.note(f'ENGINE c17d: untyped operand re-typed as {cname} (entailed by the path condition)')
+            break
+    cache[key] = out
+    return out
+
+
+_orig_binop = _symexec.Executor.binop
+
+
+def _binop(self, st, op, l, r, node):
+    if self.ctx.prop == PROP and not st.spec:
+        if l.kind == 'any':
+            l = _refined(self, st, l)
+        if r.kind == 'any':
+            r = _refined(self, st, r)
+    return _orig_binop(self, st, op, l, r, node)
+
+
+_symexec.Executor.binop = _binop
